@@ -32,8 +32,16 @@ JudgeExpr(ev) ==
 
 \* named deviation (finding D17): `round` -- wherever the result differs from std::round it equals std::nearbyint (halves to even)
 HalfEven(ev, got) == "alt" \in DOMAIN ev.in /\ \A p \in 1..Len(got) : got[p] = ev.in.ref[p] \/ got[p] = ev.in.alt[p]
+\* min / max of +0 and -0: both zeros ARE the minimum (maximum) -- the scalar operation returns its first operand, the SIMD instruction its
+\* second; the property equates values, and +0 = -0, so for these two operations a zero of either sign matches a zero of either sign
+\* (limbs are 16-bit words, least significant first: -0 is 0,..,0,32768)
+IsZeroW(w) == (\A k \in 1..(Len(w) - 1) : w[k] = 0) /\ w[Len(w)] \in {0, 32768}
+SameValues(ev, got) ==
+    \/ got = ev.in.ref
+    \/ /\ ev.in.op \in {"min", "max"} /\ ev.in.T \in {"f32", "f64"} /\ Len(got) = Len(ev.in.ref)
+       /\ \A q \in 1..Len(got) : got[q] = ev.in.ref[q] \/ (IsZeroW(got[q]) /\ IsZeroW(ev.in.ref[q]))
 JudgeTable(ev) == \A o \in 1..Len(ev.outs) :
-                     IF ev.outs[o].out.limbs = ev.in.ref THEN TRUE
+                     IF SameValues(ev, ev.outs[o].out.limbs) THEN TRUE
                      ELSE IF HalfEven(ev, ev.outs[o].out.limbs) THEN RejectTag(l, ev.case, ev.outs[o].cfg, "round_half_even")
                      ELSE Reject(l, ev.case, ev.outs[o].cfg)
 
